@@ -460,6 +460,34 @@ def sharing_real(pp, kind, probe):
     return snapshot(pp, watch) != snap
 
 
+def deep_share_real(pp, d):
+    """the sharing pattern of r.deepcopy() on d+1 groups nested in each other, the innermost named `g` in its parent
+    (the shape of PRHeapDeep.lean `chainHeap d`), by `is`-identity probes and two append probes; see `deepShare`"""
+    expr = pp.Group(pp.Word("a"))("g")
+    for _ in range(d - 1):
+        expr = pp.Group(expr)
+
+    def chain(x):
+        out = [x]
+        for _ in range(d):
+            out.append(out[-1][0])
+        return out
+
+    r = expr.parse_string("a")
+    po, pc = chain(r), chain(r.deepcopy())
+    gv = pc[d - 1]["g"]
+    out = [a is b for a, b in zip(po, pc)] + [gv is po[-1], gv is pc[-1]]
+    r = expr.parse_string("a")
+    before = _plain(r.as_list())
+    chain(r.deepcopy())[-1].append("z")
+    out.append(_plain(r.as_list()) != before)
+    r = expr.parse_string("a")
+    before = _plain(r.as_list())
+    chain(r.deepcopy())[d - 1]["g"].append("z")
+    out.append(_plain(r.as_list()) != before)
+    return out
+
+
 # ---- nested groups inside container tokens (a parse action may return tuples / lists / dicts of groups) -------------
 def cnorm(pp, x):
     PR = pp.ParseResults
@@ -569,6 +597,12 @@ def run(ctx):
     slines = [sx(Sym("prshare"), k, p) for k, p in scases]
     simpl = [dumps(bool(sharing_real(pp, k, p))) for k, p in scases]
     d0 = ctx.correspond("sharing-table", scases, slines, simpl, outcome_of=lambda c, o: f"{c[0]}:{o}")
+    # ---- deepcopyN (PRHeapDeep.lean) vs real deepcopy(): sharing pattern of nested groups, depths 1..6 ----------------
+    dcases = list(range(1, 7))
+    d0b = ctx.correspond("deep-sharing", [{"depth": d} for d in dcases], [sx(Sym("prdeepshare"), d) for d in dcases],
+                         [dumps([bool(b) for b in deep_share_real(pp, d)]) for d in dcases],
+                         outcome_of=lambda c, o: f"depth{c['depth']}")
+    d0 = list(d0) + list(d0b)
     # ---- (a) preserve: every kind of copy has the views of the original; model = views of the extracted state ----
     rng = ctx.subrng("preserve")
     cases, lines, impl = [], [], []
